@@ -63,6 +63,9 @@ struct Ctx {
     small: String,
     big: String,
     zip: String,
+    /// files that are named like archives but are not (garbage, truncated zip)
+    bad_zip: String,
+    cut_zip: String,
 }
 
 fn gen_cmd(rng: &mut Rng, m: &Model, cx: &Ctx) -> Cmd {
@@ -178,7 +181,13 @@ fn gen_cmd(rng: &mut Rng, m: &Model, cx: &Ctx) -> Cmd {
                 1 => "fs {".to_string(),
                 2 => "fs 5".to_string(),
                 3 => format!("fs {}", json!({"cmd":"stat","path":"/tmp"})),
-                4 => format!("fs {}", json!({"cmd":"readDirectory","path":cx.zip})),
+                4 => {
+                    // archive paths: "<archive>!/<path within>" (valid archive, garbage named .zip, truncated zip)
+                    let a = *rng.pick(&[&cx.zip, &cx.zip, &cx.bad_zip, &cx.cut_zip]);
+                    let within = *rng.pick(&["", "!", "!/", "!/inner", "!/inner/", "!/inner/small.dlt", "!/nonexistent", "!/../x", "!/!/"]);
+                    let cmd = *rng.pick(&["readDirectory", "stat", "readFile"]);
+                    format!("fs {}", json!({"cmd":cmd,"path":format!("{}{}", a, within)}))
+                }
                 _ => format!("fs {}", json!({"cmd":"bogus","path":5})),
             };
             Cmd { text: t, name: "fs".into(), kind: "fs", malformed: false }
@@ -440,7 +449,14 @@ pub fn run(p: &Params) -> Report {
     // a zip with the small file
     let zip = dir.path().join("arch.zip");
     std::fs::write(&zip, crate::c20::write_zip(&[crate::c20::Member { name: "inner/small.dlt".into(), data: std::fs::read(&small).unwrap() }])).unwrap();
-    let cx = Ctx { small: small.to_string_lossy().to_string(), big: big.to_string_lossy().to_string(), zip: zip.to_string_lossy().to_string() };
+    let bad_zip = dir.path().join("garbage.zip");
+    std::fs::write(&bad_zip, b"this is not a zip archive at all, just some text that is long enough to look like a file").unwrap();
+    let cut_zip = dir.path().join("cut.zip");
+    {
+        let z = std::fs::read(&zip).unwrap();
+        std::fs::write(&cut_zip, &z[..z.len() * 2 / 3]).unwrap();
+    }
+    let cx = Ctx { small: small.to_string_lossy().to_string(), big: big.to_string_lossy().to_string(), zip: zip.to_string_lossy().to_string(), bad_zip: bad_zip.to_string_lossy().to_string(), cut_zip: cut_zip.to_string_lossy().to_string() };
     let mut srv: Option<Server> = None;
     let mut i = 0u64;
     while (p.cases == 0 || i < p.cases) && !p.time_up() {
